@@ -32,3 +32,27 @@ Print Assumptions C15_generate_all_total.
 (* non-vacuity / the colliding example of the property: 'a', 'a', 'a-1' *)
 Example C15_demo : GenerateAll [] [[97]; [97]; [97; 45; 49]] = Ok [[97]; [97; 45; 49]; [97; 45; 49; 45; 49]].
 Proof. vm_compute. reflexivity. Qed.
+
+(* ---------------- end to end, for the model of the default parser with
+   parser.WithAutoHeadingID() (model/HeadingIds.v: the block phase, then Generate on the last
+   line of every heading in document order, then the inline phase), compared with goldmark on
+   every run (case kind ConvertA).  For EVERY source: every heading of the tree carries an id
+   attribute, no id is empty, the ids are pairwise distinct and over [a-z0-9-]; the tree is well
+   formed; and the conversion returns.  The ids depend on the source only: ParseTreeA is a
+   function of it (the id table is created per Parse; see C06 for the implementation side). *)
+Require Import GM.model.HtmlWriter GM.model.Html GM.model.HtmlSpec GM.model.ParseI GM.model.HeadingIds GM.proofs.ParseInv GM.proofs.HeadingIdsProofs GM.proofs.ParseInlineTotal.
+Theorem C15_auto_ids_present_nonempty_distinct : forall src t, bytes_ok src -> ParseTreeA src = Ok t ->
+  exists rs, heading_ids t = map (fun r => Some (AVBytes r)) rs /\ NoDup rs /\
+             Forall (fun r => r <> [] /\ forallb id_char r = true) rs.
+Proof. exact ParseTreeA_ids_ok. Qed.
+Print Assumptions C15_auto_ids_present_nonempty_distinct.
+Theorem C15_auto_ids_tree_wf : forall src t, bytes_ok src -> ParseTreeA src = Ok t -> wf_tree src t = true.
+Proof. exact ParseTreeA_wf. Qed.
+Print Assumptions C15_auto_ids_tree_wf.
+Theorem C15_auto_ids_convert_total : forall c src, bytes_ok src -> exists o, ConvertModelA c src = Ok o.
+Proof. exact (ConvertModelA_total InlineChildren_total). Qed.
+Print Assumptions C15_auto_ids_convert_total.
+(* non-vacuity: 'a', 'a', 'a-1' as three headings *)
+Example C15_auto_ids_demo : exists t, ParseTreeA [35;32;97;10;35;32;97;10;35;32;97;45;49;10]%N = Ok t /\
+  heading_ids t = [Some (AVBytes [97]); Some (AVBytes [97;45;49]); Some (AVBytes [97;45;49;45;49])]%N.
+Proof. eexists. split; vm_compute; reflexivity. Qed.
